@@ -4,6 +4,8 @@ import Splipy.Lemmas.C08Periodicity
 import Splipy.Lemmas.C08Knots
 import Splipy.Lemmas.C08LowerEval
 import Splipy.Lemmas.C08RoundTrip
+import Splipy.Lemmas.C08SeamDeriv
+import Splipy.Lemmas.C10Ctor
 import Splipy.Lemmas.EvalRow
 import Mathlib.Data.Rat.Floor
 import Mathlib.Tactic.NormNum
@@ -42,16 +44,66 @@ theorem C08_periodicity_partial [FloorRing K] (o : Obj K) {tol : K} (htol : 0 < 
     o.evaluate tol params' true = o.evaluate tol params true := by
   rw [Obj.evaluate_tensor_eq, Obj.evaluate_tensor_eq, domainBad_congr h, matsOf_congr htol h]
 
-/-- **Seam smoothness.**  If the seam `τ q` has multiplicity at most `m = p - 1 - k` (no `m+1` knots
-equal to it), every derivative of order `d ≤ k` (`d + m ≤ q`) of the periodic spline taken at the
-END of the domain from BELOW equals the one taken at the START from ABOVE (order `0` = the value:
-the map is continuous across the seam).  Kernel lemma L9 + periodic shift of the B-splines. -/
+/-- **Seam smoothness, specification level** (infinite periodic knot sequence).  If the seam `τ q`
+has multiplicity at most `m = p - 1 - k` (no `m+1` knots equal to it), every derivative of order
+`d ≤ k` (`d + m ≤ q`) of the periodic spline taken at the END of the domain from BELOW equals the one
+taken at the START from ABOVE (order `0` = the value: the map is continuous across the seam).  Kernel
+lemma L9 + periodic shift of the B-splines.
+
+`hper` speaks about a genuinely periodic INFINITE sequence; the knot accessor `Basis.kn` of the model
+(constant beyond the array) does not satisfy it.  The instantiation for the model is
+`C08_seam_rows` / `C08_seam_derivative` below: there `τ` is the periodic continuation `Basis.ext` of
+the knot array (`Lemmas/C07Roll.lean`: `ext_mono`, `ext_add`, `ext_eq`), and the statement is about
+what `Basis.evaluate` and `Obj.derivativeGeneric` return, for every `d ≤ k`. -/
 theorem C08_seam_smooth (τ : ℕ → K) (hτ : Monotone τ) (n : ℕ) (T : K) (hT : 0 < T)
     (hper : ∀ i, τ (i + n) = τ i + T) (c : ℕ → K) (hc : ∀ i, c (i + n) = c i)
     (q m d N : ℕ) (hd : d + m ≤ q) (hm : ∀ j, τ j = τ q → τ (j + m) ≠ τ q)
     (hN : τ q + T ≤ τ N) (hnN : n ≤ N) :
     splineDeriv .left τ q N c d (τ q + T) = splineDeriv .right τ q N c d (τ q) :=
   periodic_seam_smooth τ hτ n T hper c hc q m d N hT hd hm hN hnN
+
+/-- **Seam smoothness of the evaluated basis rows** (`BSplineBasis.evaluate`, every derivative order
+the seam allows).  `b` a valid periodic basis of order `p`, at most `m` of its knots equal `start`
+(`Basis.SeamMultLe`; the declared continuity `k` corresponds to `m = p - 1 - k`,
+`C08_seam_rows_declared`), `d + m ≤ p - 1`, `start` and `stop` exact for the tolerance.  Then the
+derivative row of order `d` at the domain END (from below, `from_right=False`; `from_right=True` gives
+the same row because the code takes the left limit at `end`) and the row at `start` from BELOW are both
+equal to the row at `start` from ABOVE. -/
+theorem C08_seam_rows [FloorRing K] {b : Basis K} (hv : b.Valid) (hper : 0 ≤ b.periodic) {m d : ℕ}
+    (hmult : b.SeamMultLe m) (hd : d + m ≤ b.order - 1)
+    {tol : K} (htol : 0 < tol) (hex0 : b.ExactAt tol b.start) (hex1 : b.ExactAt tol b.stop) :
+    b.evaluate tol b.stop d false = b.evaluate tol b.start d true ∧
+    b.evaluate tol b.stop d true = b.evaluate tol b.start d true ∧
+    b.evaluate tol b.start d false = b.evaluate tol b.start d true :=
+  ⟨evaluate_stop_eq_start_deriv hv hper hmult hd htol hex0 hex1 false,
+    evaluate_stop_eq_start_deriv hv hper hmult hd htol hex0 hex1 true,
+    evaluate_start_left_eq_right_deriv hv hper hmult hd htol hex0⟩
+
+/-- The same for the DECLARED continuity: `periodic = k`, seam multiplicity at most `p - 1 - k`
+(what `make_periodic(k)` and the factories build), every `0 ≤ d ≤ k`. -/
+theorem C08_seam_rows_declared [FloorRing K] {b : Basis K} (hv : b.Valid) (k : ℕ)
+    (hk : b.periodic = (k : Int)) (hmult : b.SeamMultLe (b.order - 1 - k)) {d : ℕ} (hd : d ≤ k)
+    {tol : K} (htol : 0 < tol) (hex0 : b.ExactAt tol b.start) (hex1 : b.ExactAt tol b.stop) :
+    b.evaluate tol b.stop d false = b.evaluate tol b.start d true := by
+  have hper : 0 ≤ b.periodic := by omega
+  have hkle := Basis.per_k_le hv hper
+  exact evaluate_stop_eq_start_deriv hv hper hmult (by omega) htol hex0 hex1 false
+
+/-- **Seam smoothness of periodic curves — `SplineObject.derivative`** (`Obj.derivativeGeneric`,
+rational or not, `tensor` either way).  Curve over a valid periodic basis `b` as in `C08_seam_rows`.
+Then `derivative(end, d, above)` (either side) and `derivative(start, d, above=False)` return exactly
+what `derivative(start, d, above=True)` returns: derivatives up to the order the seam allows agree
+across the seam (for rational curves the quotient rule of order `≤ 1`, and the same `RuntimeError`
+beyond). -/
+theorem C08_seam_derivative [FloorRing K] (o : Obj K) {b : Basis K} (hb : o.bases = #[b])
+    (hv : b.Valid) (hper : 0 ≤ b.periodic) {m d : ℕ} (hmult : b.SeamMultLe m)
+    (hd : d + m ≤ b.order - 1) {tol : K} (htol : 0 < tol) (hex0 : b.ExactAt tol b.start)
+    (hex1 : b.ExactAt tol b.stop) (a tensor : Bool) :
+    o.derivativeGeneric tol [[b.stop]] [d] [a] tensor
+        = o.derivativeGeneric tol [[b.start]] [d] [true] tensor ∧
+      o.derivativeGeneric tol [[b.start]] [d] [false] tensor
+        = o.derivativeGeneric tol [[b.start]] [d] [true] tensor :=
+  derivativeGeneric_seam o hb hv hper hmult hd htol hex0 hex1 a tensor
 
 /-- **`lower_periodic(k')` — the model's `Obj.lowerPeriodic`** (curves, surfaces, volumes;
 fibre-wise).  `dir` a valid periodic direction (order `p`, continuity `k`, `n` functions) under the
@@ -103,7 +155,8 @@ theorem C08_lower_periodic_raise [FloorRing K] (o : Obj K) (dir : ℕ) (k' : Int
 /-- **`lower_periodic` on curves and the real evaluator.**  Curve (rational or not) over a valid
 periodic basis `b1` with `n ≥ p + k` and `hseam`; `-1 ≤ k' ≤ k`; `tol > 0`; parameters `us`
 admissible for `b1` (tolerance comparisons exact at `u` and at the wrapped point) and — when the
-result is non-periodic, `k' = -1` — inside `[start, end]`.  Then `lower_periodic(k')` succeeds and
+result is non-periodic, `k' = -1` — inside `[start, end]` and not the empty list (for which the
+non-periodic result raises `ValueError` while the periodic original returns an empty array).  Then `lower_periodic(k')` succeeds and
 `o'.evaluate tol [us] = o.evaluate tol [us]` (the same tensor) provided the parameters are admissible
 for the new basis too.  Via `Lemmas/BridgeTransfer.lean` (`transfer_curve`) and
 `C04.specRow_sum_periodic`.  `_partial`: as `C08_lower_periodic_partial`; surfaces/volumes are covered
@@ -114,12 +167,12 @@ theorem C08_lower_periodic_curve_partial [FloorRing K] {o : Obj K} {b1 : Basis K
     (hs : o.cps.shape = [b1.numFunctions, nc]) (hnc : o.rational = true → 1 ≤ nc)
     (hseam : b1.start < b1.kn b1.order) (k' : Int) (h1 : -1 ≤ k') (h2 : k' ≤ k)
     {tol : K} (htol : 0 < tol) {us : List K} (hus : ∀ u ∈ us, b1.Admissible tol u)
-    (hdom : k' = -1 → ∀ u ∈ us, b1.start ≤ u ∧ u ≤ b1.stop) :
+    (hdom : k' = -1 → ∀ u ∈ us, b1.start ≤ u ∧ u ≤ b1.stop) (hne : k' = -1 → us ≠ []) :
     ∃ o', o.lowerPeriodic k' 0 = .ok o' ∧ (o'.basis 0).Valid ∧ (o'.basis 0).periodic = k' ∧
       ((∀ u ∈ us, (o'.basis 0).Admissible tol u) →
         o'.evaluate tol [us] true = o.evaluate tol [us] true) := by
   obtain ⟨o', hl, hI, he⟩ :=
-    lowerPeriodic_evaluate_curve hb hv1 k hk hguard hs hnc hseam k' h1 h2 htol hus hdom
+    lowerPeriodic_evaluate_curve hb hv1 k hk hguard hs hnc hseam k' h1 h2 htol hus hdom hne
   have hb0 : o.basis 0 = b1 := by simp [Obj.basis, hb]
   refine ⟨o', hl, hI.valid, ?_, he⟩
   rw [hI.periodic_eq, hb0, hk]; omega
@@ -382,3 +435,46 @@ example : (C08_exK1.basis 0).order + 1 ≤ (C08_exK1.basis 0).numFunctions ∧
     (C08_exK1.basis 0).start + 1 / 10 ^ 10 ≤ (C08_exK1.basis 0).kn (C08_exK1.basis 0).order := by
   refine ⟨by decide, ?_, ?_⟩ <;>
     norm_num [Obj.basis, C08_exK1, Basis.start, Basis.kn]
+
+/-- Every hypothesis of `C08_seam_rows` / `C08_seam_derivative` for the basis of `C08_exK1`
+(`p = 3`, `k = 1`, seam `0` of multiplicity `1 = p - 1 - k`, `tol = 10⁻¹⁰`), `d ≤ 1`. -/
+theorem C08_exK1_seam :
+    (C08_exK1.basis 0).Valid ∧ 0 ≤ (C08_exK1.basis 0).periodic ∧ (C08_exK1.basis 0).SeamMultLe 1 ∧
+    (C08_exK1.basis 0).ExactAt (1 / 10 ^ 10) (C08_exK1.basis 0).start ∧
+    (C08_exK1.basis 0).ExactAt (1 / 10 ^ 10) (C08_exK1.basis 0).stop := by
+  have hst : (C08_exK1.basis 0).start = 0 := by norm_num [Obj.basis, C08_exK1, Basis.start, Basis.kn]
+  have hsp : (C08_exK1.basis 0).stop = 6 := by norm_num [Obj.basis, C08_exK1, Basis.stop, Basis.kn]
+  refine ⟨(Basis.validB_iff _).1 (by decide +kernel), by decide, ?_, ?_, ?_⟩
+  · intro j hj h0
+    have hj' : j + 1 < 9 := hj
+    have hj'' : j < 8 := by omega
+    rw [hst] at h0 ⊢
+    interval_cases j
+    all_goals first
+      | (norm_num [Obj.basis, C08_exK1, Basis.kn] at h0; done)
+      | norm_num [Obj.basis, C08_exK1, Basis.kn]
+  · rw [hst]
+    intro i hi
+    have hi' : i < 9 := hi
+    interval_cases i <;> norm_num [Obj.basis, C08_exK1, Basis.kn, abs_of_nonneg, abs_of_neg]
+  · rw [hsp]
+    intro i hi
+    have hi' : i < 9 := hi
+    interval_cases i <;> norm_num [Obj.basis, C08_exK1, Basis.kn, abs_of_nonneg, abs_of_neg]
+
+example (a tensor : Bool) :
+    C08_exK1.derivativeGeneric (1 / 10 ^ 10) [[(C08_exK1.basis 0).stop]] [1] [a] tensor
+      = C08_exK1.derivativeGeneric (1 / 10 ^ 10) [[(C08_exK1.basis 0).start]] [1] [true] tensor :=
+  (C08_seam_derivative C08_exK1 (b := C08_exK1.basis 0) rfl C08_exK1_seam.1 C08_exK1_seam.2.1
+    C08_exK1_seam.2.2.1 (d := 1) (by decide) (by norm_num) C08_exK1_seam.2.2.2.1
+    C08_exK1_seam.2.2.2.2 a tensor).1
+
+/-- The kernel evaluates both sides: first derivative at the seam of `C08_exK1`, from below at the
+end `6` and from above at the start `0`. -/
+theorem C08_exK1_seam_eval :
+    (match C08_exK1.derivativeGeneric (1 / 10 ^ 10) [[6]] [1] [false] true,
+        C08_exK1.derivativeGeneric (1 / 10 ^ 10) [[0]] [1] [true] true with
+      | .ok r, .ok r' => (r.data.toList, r'.data.toList)
+      | _, _ => ([], [1]))
+    = ([8/3, -2], [8/3, -2]) := by
+  decide +kernel
